@@ -550,6 +550,18 @@ func kindFor(r *kit.Rng, dt string) byte {
 }
 
 func genCondValue(r *kit.Rng, op, dt string) val {
+	if r.Chance(22) { // every value kind under every operator and datatype
+		k := "sifbnol"[r.Intn(7)]
+		if k == 'l' {
+			l := val{k: 'l'}
+			n := r.Intn(4)
+			for i := 0; i < n; i++ {
+				l.items = append(l.items, anyScalar(r, true))
+			}
+			return l
+		}
+		return scalar(r, k, true)
+	}
 	switch op {
 	case config.HasRootSpan:
 		switch r.Pick(70, 20, 10) {
